@@ -4,7 +4,7 @@
     EscapeTop.v (get_matches_with / do_parse / parse_top). *)
 From ClapModel Require Import Base.Bytes Base.Machine Base.Utf8 Lex.OsStrExtModel.
 From ClapModel Require Import Parse.Cmd Parse.Build Parse.Valid Parse.Matcher Parse.Errors Parse.Validator Parse.Parser.
-From ClapModel Require Import ParseProofs.Totality ParseProofs.Dispatch ParseProofs.Escape ParseProofs.EscapeWalk ParseProofs.EscapeStore ParseProofs.EscapeLevel ParseProofs.EscapeChain ParseProofs.EscapeTop.
+From ClapModel Require Import ParseProofs.Totality ParseProofs.Dispatch ParseProofs.Escape ParseProofs.EscapeWalk ParseProofs.EscapeStore ParseProofs.EscapeLevel ParseProofs.EscapeChain ParseProofs.EscapeDisplay ParseProofs.EscapeTop.
 From Coq Require Import ZArith.
 From RecordUpdate Require Import RecordSet.
 Import RecordSetNotations.
@@ -437,6 +437,8 @@ Theorem C05_esc_okb_def : forall f c,
   esc_okb (S f) c =
   negb (is_set s_ignore_errors c) && forallb (fun a => negb (a_hyphen a)) (c_args c)
   && negb (is_some (possible_subcommand c dashdash false)) && negb (is_some (possible_subcommand c dashdash true))
+  && forallb (fun a => negb (display_action a)
+                       || (negb (is_some (a_env a)) && is_nil (a_default a) && is_nil (a_default_ifs a))) (c_args c)
   && forallb (fun s => match build_subcommand c (c_name s) with Some sc => esc_okb f sc | None => false end) (c_subs c).
 Proof. exact (fun f c => eq_refl). Qed.
 Print Assumptions C05_esc_okb_def.
@@ -447,3 +449,43 @@ Theorem C05_TV_def : forall c st,
                  /\ (forall k, p_trailing_idx p = Some k -> k <= N.of_nat (length (p_raw p)))).
 Proof. exact (fun c st => conj (fun H => H) (fun H => H)). Qed.
 Print Assumptions C05_TV_def.
+
+(** * Help/version outcomes of the whole parse *)
+
+(** the phases after a successful loop ([resolve_pending], [add_env], [add_defaults], [validate]) raise no
+    DisplayHelp/DisplayVersion when the loop left a [TV] state and no Help/Version argument carries an env
+    variable or a default ([nodisp_src]) *)
+Theorem C05_post_no_display : forall c, lvl c -> nodisp_src c ->
+  forall stp e s, TV c stp -> post c (ROk stp) = RErr e s -> is_display (e_kind e) = false.
+Proof. exact post_no_display. Qed.
+Print Assumptions C05_post_no_display.
+
+(** (1) over the recursion into subcommands: a DisplayHelp/DisplayVersion outcome of
+    [get_matches_with] on [pre ++ -- :: t1] is the outcome (same error) on [pre ++ -- :: t2] for every [t2] *)
+Theorem C05_gmw_display_not_from_tail : forall fuel c pre t1 t2 st0 e s,
+  esc_ok fuel c -> mt_pending (mt st0) = None ->
+  get_matches_with fuel c (pre ++ dashdash :: t1) st0 = RErr e s -> is_display (e_kind e) = true ->
+  exists s', get_matches_with fuel c (pre ++ dashdash :: t2) st0 = RErr e s'.
+Proof. exact gmw_display_not_from_tail. Qed.
+Print Assumptions C05_gmw_display_not_from_tail.
+
+(** (1) for [parse_top]: no token after the [--] is a help or version request -- a help/version
+    outcome of [bin pre.. -- t1..] is the outcome of [bin pre.. -- t2..] for every [t2], the empty one included *)
+Theorem C05_parse_top_display_not_from_tail : forall c0 bin pre t1 t2 e,
+  esc_class c0 = true -> is_set s_no_binary_name c0 = false -> c_bin_name c0 <> None ->
+  parse_top c0 (bin :: pre ++ dashdash :: t1) = OErr e -> is_display (e_kind e) = true ->
+  parse_top c0 (bin :: pre ++ dashdash :: t2) = OErr e.
+Proof. exact parse_top_display_not_from_tail. Qed.
+Print Assumptions C05_parse_top_display_not_from_tail.
+
+Theorem C05_do_parse_display_not_from_tail : forall c0 pre t1 t2 e,
+  esc_class c0 = true -> do_parse c0 (pre ++ dashdash :: t1) = OErr e -> is_display (e_kind e) = true ->
+  do_parse c0 (pre ++ dashdash :: t2) = OErr e.
+Proof. exact do_parse_display_not_from_tail. Qed.
+Print Assumptions C05_do_parse_display_not_from_tail.
+
+Theorem C05_nodisp_src_def : forall c,
+  nodisp_src c <-> (forall a, In a (c_args c) -> display_action a = true ->
+                      a_env a = None /\ a_default a = [] /\ a_default_ifs a = []).
+Proof. exact (fun c => conj (fun H => H) (fun H => H)). Qed.
+Print Assumptions C05_nodisp_src_def.
